@@ -268,9 +268,10 @@ func (c *c04Case) build() (tpl string, data any, wantInst []string, wantElse boo
 // --- body part: every way a loop body can consume the item, differential against one-item loops
 
 var c04BodyFiles = Files{
-	"c.vuego":  `<em class="c">{{ p }}</em>`,
-	"s.vuego":  `<div class="s"><slot></slot></div>`,
-	"s2.vuego": `<div class="s"><slot></slot><slot></slot></div>`,
+	"c.vuego":   `<em class="c">{{ p }}</em>`,
+	"s.vuego":   `<div class="s"><slot></slot></div>`,
+	"s2.vuego":  `<div class="s"><slot></slot><slot></slot></div>`,
+	"sep.vuego": `<hr>`,
 }
 
 var c04Bodies = map[string]string{
@@ -294,6 +295,9 @@ var c04Bodies = map[string]string{
 	"vhtmlattr": `<b v-html="it" :title="it" class="h">old</b>`,
 	"pre":       `<pre>{{ it }}</pre>`,
 	"filter":    `<b>{{ it | upper }}</b><i :title="it | upper">k</i>`,
+	"incplain":  `<template include="sep.vuego"></template>x{{ it }}`,
+	"slotplain": `<template include="s.vuego"><template v-slot><u>{{ it }}</u></template></template>`,
+	"slotempty": `<template include="s.vuego"></template><u>{{ it }}</u>`,
 }
 
 var c04BodyNames = func() []string {
@@ -323,8 +327,10 @@ func (c *c04Case) runBody(ctx *core.Ctx) {
 	} else {
 		tpl = `<ul><li class="inst" v-for="` + loopExpr + `">` + body + `</li></ul>`
 	}
+	// the loop variable shadows an outer variable of the same name: its value before and after the loop
+	tpl = `<p id="before">{{ it }}|{{ i }}</p>` + tpl + `<p id="after">{{ it }}|{{ i }}</p>`
 	render := func(xs []string) ([]string, string, error) {
-		data := map[string]any{"xs": xs, "two": []int{1, 2}}
+		data := map[string]any{"xs": xs, "two": []int{1, 2}, "it": "OUT", "i": "OUTI"}
 		ctx.Eval(1)
 		var out string
 		var err error
@@ -341,7 +347,17 @@ func (c *c04Case) runBody(ctx *core.Ctx) {
 			return nil, out, err
 		}
 		var inst []string
-		for _, n := range htmlcmp.Find(htmlcmp.Parse(out), func(n *html.Node) bool { cl, _ := htmlcmp.Attr(n, "class"); return cl == "inst" }) {
+		parsed := htmlcmp.Parse(out)
+		for _, id := range []string{"before", "after"} {
+			if n := htmlcmp.ByID(parsed, id); n == nil || htmlcmp.Text(n) != "OUT|OUTI" {
+				g := "<missing>"
+				if n != nil {
+					g = htmlcmp.Text(n)
+				}
+				return nil, out, fmt.Errorf("scope not restored: #%s shows %q, want \"OUT|OUTI\"", id, g)
+			}
+		}
+		for _, n := range htmlcmp.Find(parsed, func(n *html.Node) bool { cl, _ := htmlcmp.Attr(n, "class"); return cl == "inst" }) {
 			inst = append(inst, oneLine(htmlcmp.String(htmlcmp.Project([]*html.Node{n}, htmlcmp.Options{Values: true}))))
 		}
 		return inst, out, nil
@@ -350,7 +366,11 @@ func (c *c04Case) runBody(ctx *core.Ctx) {
 	trig := c.Coll
 	got, out, err := render(items)
 	if err != nil {
-		ctx.Violation("render-error", where, trig, fmt.Sprintf("tpl %q: %v", tpl, err))
+		kind := "render-error"
+		if strings.HasPrefix(err.Error(), "scope not restored") {
+			kind = "scope-restore"
+		}
+		ctx.Violation(kind, where, trig, fmt.Sprintf("tpl %q items %q: %v (out %q)", tpl, items, err, clip(out, 300)))
 		return
 	}
 	if c.Len > 1 {
@@ -518,7 +538,7 @@ func init() {
 	core.Register(&core.Check{
 		ID:    "C04",
 		Level: "exploration",
-		Rule: "every combination of collection kind (15: incl. slices with nil items, slices of any/int/int32/string/bool/map/struct/*struct, array, nil slice, nil value, missing) x length x access path x loop form x loop-variable name (fresh / shadows a map key / shadows a root struct field by name / by JSON tag) x v-else (none/adjacent/after whitespace) x looped element (plain, v-if, bindings, <template>) x root data (map/struct/*struct) x printing position ({{ }}, expression); plus nested loops; plus a body part: 20 ways a loop body can consume the item (text, deep text, interpolated/bound attribute, :class, :style, v-text, v-html, <template v-html>, v-show, inner v-if/v-else, <template :var>, include with bound / interpolated prop, slot content used once / twice, inner v-for, filters, pre) x 1..3 items x loop form x looped element x entry point, with the oracle: instance i shows item i and no other item and equals the single instance of a loop over [item i] alone. " +
+		Rule: "every combination of collection kind (15: incl. slices with nil items, slices of any/int/int32/string/bool/map/struct/*struct, array, nil slice, nil value, missing) x length x access path x loop form x loop-variable name (fresh / shadows a map key / shadows a root struct field by name / by JSON tag) x v-else (none/adjacent/after whitespace) x looped element (plain, v-if, bindings, <template>) x root data (map/struct/*struct) x printing position ({{ }}, expression); plus nested loops; plus a body part: 23 ways a loop body can consume the item (text, deep text, interpolated/bound attribute, :class, :style, v-text, v-html, <template v-html>, v-show, inner v-if/v-else, <template :var>, include with bound / interpolated prop, slot content used once / twice, prop-less include, v-slot template without props, include without content, inner v-for, filters, pre) x 1..3 items x loop form x looped element x entry point, with the oracle: instance i shows item i and no other item and equals the single instance of a loop over [item i] alone, and the outer variables named like the loop variables have their outer values before and after the loop. " +
 			"oracle: reference interpreter gives the instance list, for-else presence and the value of the loop variable's name before and after the loop. non-trivial = at least one item",
 		Bounds:      map[string]string{"quick": "lengths 0..2, nesting depth 2", "thorough": "lengths 0..3, nesting depth 2"},
 		Assumptions: []string{"iteration over maps is C10's subject, not enumerated here", "v-else after an element carrying both v-for and v-if is ambiguous and not generated"},
